@@ -341,7 +341,7 @@ class VersionRange(VersionRangeConstraint):
 
                 difference = current.difference(range)
                 if difference.is_empty():
-                    return EmptyConstraint()
+                    return VersionUnion.of(*ranges)
                 elif isinstance(difference, VersionUnion):
                     # If [range] split [current] in half, we only need to continue
                     # checking future ranges against the latter half.
